@@ -435,6 +435,29 @@ func c16(p *core.Program, r *core.Report) {
 			}
 		}
 	}
+	// ---- rule 3b: no copy through a buffer of fixed size
+	{
+		k := 0
+		for _, fn := range order {
+			for _, c := range eng.Calls(fn) {
+				if eng.BuiltinName(c) != "copy" || len(c.Common().Args) != 2 {
+					continue
+				}
+				k++
+				dst := c.Common().Args[0]
+				bad := ""
+				if sl, ok := dst.(*ssa.Slice); ok {
+					if pt, isP := sl.X.Type().Underlying().(*types.Pointer); isP {
+						if at, isA := pt.Elem().Underlying().(*types.Array); isA {
+							bad = fmt.Sprintf("the copy at %s goes into an array of %d elements: a source longer than that (a Layout(n) point with n > %d, a wider box) is truncated in the clone", p.Pos(c.Pos()), at.Len(), at.Len())
+						}
+					}
+				}
+				r.Check(bad == "", r3, fmt.Sprintf("%s/copy#%d", short(fn), k), p.Pos(c.Pos()), true, "the destination is not a fixed-size buffer", bad)
+			}
+		}
+	}
+
 	// ---- rule 4: a field the copy fills in somewhere is filled in on every path
 	const r4 = "clone-fields-on-every-path"
 	r.Rule(r4, "in every function statically reachable from a Clone method, each field of a struct under construction (a fresh local/new value or the dst parameter of a deep-copy function) that is written on some path - stored, or the destination of copy() - is written on every path from the struct's creation to a return: a copy that skips its slices on a shortcut (an early return for an `empty` source) loses the parts of a geometry that has parts but no coordinates", 15)
